@@ -81,4 +81,16 @@ PROPS = {
              "params": {"quick": {"nest": 0, "forms": 2, "small": 1}, "thorough": {"nest": 1, "forms": 2, "small": 1}}, "wall": {"thorough": "40m"}},
         ],
     },
+    "C04": {
+        "technique": "bounded symbolic execution of lisp.EVAL on lazily materialised symbolic forms (every special form, every name the loaders registered enumerated from the environment at run time, non-symbol and unbound heads; operands: data values, nested forms, parameter lists with & anywhere, empty lists; quasiquote templates; closure/macro/let calls with arbitrary parameter lists); reachability of an escaping panic; SMT (z3) decides assertions",
+        "outside": "stack exhaustion by deep recursion, cyclic values, builtins whose body needs an unmodelled library (json-encode json-decode hash-map-decode base64 unbase64 uuid spew version time-ms time-ns sleep slurp read-line str2binary binary2str split), forms deeper/wider than the bound, symbolic integer magnitudes (integers range over {0,1,-1,7})",
+        "runs": [
+            {"pkg": "./c04", "harness": "Harness_form", "setup": "Setup", "budget": 300000,
+             "params": {"quick": {"depth": 0, "maxargs": 1}, "thorough": {"depth": 0, "maxargs": 2}}, "wall": {"thorough": "40m"}},
+            {"pkg": "./c04", "harness": "Harness_quasi", "setup": "Setup", "budget": 300000,
+             "params": {"quick": {"depth": 1}, "thorough": {"depth": 2}}, "wall": {"thorough": "40m"}},
+            {"pkg": "./c04", "harness": "Harness_call", "setup": "Setup", "budget": 300000,
+             "params": {"quick": {}, "thorough": {}}},
+        ],
+    },
 }
